@@ -36,7 +36,7 @@ T = {
          "The model is written from the property text; corners the statement is silent on are recorded, not judged.", "4/C09"),
  "C10": ("executable reference state machine run in lock-step with the real ClientSession over generated and enumerated histories",
          "As C09 for the client workflow with model::client.",
-         "Transaction ids that were never issued (fractional, negative, out of range, NaN) count as unknown (defect F13, fixed).", "4/C10"),
+         "Transaction ids that were never issued (fractional, negative, out of range, NaN) count as unknown (defect F13, fixed); so does the id consumed by a request that was refused for its argument (defect F16, fixed).", "4/C10"),
  "C11": ("independent SHA-256/HMAC implementation recomputes digests and signatures of generated packets; all 728 offsets enumerated through the fill hook",
          "Uses the deterministic fill hook to make the library generate packet 1 at every one of the 728 digest offsets for both roles, and feeds reference-built packet 1s at every offset of both schemes; digests, signatures and echoes are recomputed independently.",
          "Exhaustive over offsets, sampled over fillings.", "4/C11"),
